@@ -741,6 +741,15 @@ class SpecEnv(object):
         # sequences
         P["empty"] = lambda ctx: b""
         P["nth"] = lambda ctx, s, i: i2v(zseq(s)[zint(i)])
+        fs_is_dir = U("fs_is_dir", Val, Bool, Bool)
+        fs_is_file = U("fs_is_file", Val, Bool, Bool)
+        fs_entries = U("fs_entries", Val, Bool, Val)
+        path_join = U("path_join", Val, Val, Bool, Val)
+        P["fs_is_dir"] = lambda ctx, p, r: b2v(fs_is_dir(to_val(p), zbool(r)))
+        P["fs_is_file"] = lambda ctx, p, r: b2v(fs_is_file(to_val(p), zbool(r)))
+        P["fs_entries"] = lambda ctx, p, r: SVal(fs_entries(to_val(p), zbool(r)))
+        P["path_join"] = lambda ctx, a, b, r: SVal(path_join(to_val(a), to_val(b), zbool(r)))
+        P["sub"] = lambda ctx, b, i, n: SBytes(z3.SubSeq(zseq(b), zint(i), zint(n)))      # the n bytes of b from index i
         P["startswith"] = lambda ctx, s, p: b2v(z3.PrefixOf(zseq(p), zseq(s)))
 
         def p_join(ctx, lst):
